@@ -581,8 +581,9 @@ def copyLayersFrom (g : Geo) (layers : List Layer) : Except Exc Geo := do
 def refinedThicknesses (ts : List (Rat × Bool)) (factor : Nat) : List Rat :=
   ts.flatMap fun p => if p.2 then List.replicate factor (p.1 / factor) else [p.1]
 
-/-- `refine_layers(layers, factor)` (`layers = []` means all; layer names regenerated) -/
-def refineLayers (g : Geo) (layers : List Name) (factor : Nat) : Except Exc Geo := do
+/-- `refine_layers` up to and including its `add_layers` call: the new layer stack under generated names, the
+    atmosphere layer still carrying the convention's default name; returned with the old atmosphere layer's name -/
+def refineLayersStack (g : Geo) (layers : List Name) (factor : Nat) : Except Exc (Geo × Name) := do
   let sel ← (if layers.isEmpty then pure g.layerlist
              else layers.mapM fun n => match g.layerD.get? n with
                | some i => pure i
@@ -596,11 +597,17 @@ def refineLayers (g : Geo) (layers : List Name) (factor : Nat) : Except Exc Geo 
     let thicknesses := refinedThicknesses (below.map fun l => ((g.lay l).top - (g.lay l).bottom, sel.contains l)) factor
     let left := !g.rightJustifiedNames
     let g ← g.clearLayers.addLayers thicknesses topElevation left
-    let g ← (match g.layerlist with
-             | [] => throw Exc.indexError
-             | n0 :: _ => g.renameLayer [(g.lay n0).name] [atmName])
-    let g ← g.columnlist.foldlM (fun (g : Geo) c => g.setColumnNumLayers c) g
-    g.setupNames
+    pure (g, atmName)
+
+/-- `refine_layers(layers, factor)` (`layers = []` means all; layer names regenerated, then the atmosphere layer
+    gets its old name back) -/
+def refineLayers (g : Geo) (layers : List Name) (factor : Nat) : Except Exc Geo := do
+  let (g, atmName) ← g.refineLayersStack layers factor
+  let g ← (match g.layerlist with
+           | [] => throw Exc.indexError
+           | n0 :: _ => g.renameLayer [(g.lay n0).name] [atmName])
+  let g ← g.columnlist.foldlM (fun (g : Geo) c => g.setColumnNumLayers c) g
+  g.setupNames
 
 /-! ### rigid motions -/
 
